@@ -286,6 +286,23 @@ Proof.
   intros T C H. unfold step_leader in H. rewrite T, C in H. cbn in H. inversion H. reflexivity.
 Qed.
 
+(* A leader that is not itself a voter of its configuration (it was removed and has not stepped
+   down) never takes the sole-voter shortcut: under ReadOnlySafe the request is queued and a
+   heartbeat round to the voters is started, whatever the size of the voter set. *)
+Theorem non_voter_leader_asks_quorum r m r' :
+  existsb (N.eqb (r_id r)) (c_voters (t_config (r_trk r))) = false ->
+  ro_option (r_read_only r) = ReadOnlySafe ->
+  send_msg_read_index_response r m = Ok r' ->
+  exists ro,
+    ro_recv_ack (ro_add_request (r_read_only r) (l_committed (r_log r)) m) (r_id r)
+                (ro_heartbeat_ctx (ro_add_request (r_read_only r) (l_committed (r_log r)) m)) = Ok ro /\
+    bcast_heartbeat (set_r_read_only r ro) = Ok r'.
+Proof.
+  intros NV RO H. unfold send_msg_read_index_response in H. rewrite NV, RO in H. cbn [andb] in H.
+  match type of H with bind ?x _ = _ => destruct x as [ro|] eqn:E; cbn [bind] in H; [|discriminate] end.
+  exists ro. split; [reflexivity|exact H].
+Qed.
+
 (* reads are confirmed only up to the quorum order statistic of the acknowledged positions *)
 Theorem ro_advance_quorum ro c0 c1 ro' out :
   ro_maybe_advance ro c0 c1 = Ok (ro', out) ->
